@@ -748,7 +748,8 @@ HARNESSES = [ChordalQR(), Projection(), Chordal(), UpdateInv(), Selectors(), Whi
 MANIFEST = dict(
     category='model_checking',
     text='Bounded symbolic checking of the real kernels on symbolic complex '
-    'matrices (projection 2x1..4x2, chordal distance, diagonal-update inverse '
+    'matrices (projection 2x1..4x2, chordal distance by the projection and by '
+    'the QR route incl. their agreement, diagonal-update inverse '
     '2x2/3x3, eigen/singular selectors with all orderings, whitening 2x2/3x3, '
     'GMD p=2 over all its branches, unit conversions): every identity is a '
     'polynomial equality decided by normal form or z3 QF_LRA over the monomial '
